@@ -118,6 +118,14 @@ Theorem C17_adapt_clamps : forall l c r, l_max l <> 0 -> p_to c < U64 ->
                           (l_require_bridge l = true -> p_bridges c' <> [])).
 Proof. exact adapt_clamps. Qed.
 
+(* the two cuts of the build pipeline in a row (size limit, then the configured last L2 block): what comes out is the
+   ORIGINAL certificate restricted to first block .. min(end block kept by the size cut, configured maximum) *)
+Theorem C17_limit_then_adapt : forall (size : params -> N) (max : N) l c c1 r,
+  wf_span c -> events_in_range c -> limit_cert_size size max c = LDone c1 ->
+  l_max l <> 0 -> p_to c1 < U64 -> adapt_certificate l (Some c1) = Ok r ->
+  exists c2, r = Some c2 /\ c2 = restrict c (p_from c) (N.min (p_to c1) (l_max l)).
+Proof. exact limit_then_adapt. Qed.
+
 (* error cases characterised (iff), and exactly when the call succeeds *)
 Theorem C17_adapt_errors_characterised : forall l c, l_max l <> 0 -> p_to c < U64 ->
   let M := l_max l in
@@ -390,7 +398,7 @@ Definition C17_all_range := (C17_range_is_filter, C17_range_strict_is_filter, C1
 Definition C17_all_limit := (C17_limit_keeps_first_and_is_maximal, C17_limit_never_fails, C17_limit_result_is_filter,
   C17_exceeds_limit_only_if_single_block, C17_exceeds_limit_unbounded_refuted, C17_limit_zero_is_identity,
   C17_limit_fitting_is_identity, C17_limit_exec_agrees).
-Definition C17_all_adapt := (C17_adapt_disabled, C17_adapt_nil, C17_adapt_clamps, C17_adapt_errors_characterised).
+Definition C17_all_adapt := (C17_limit_then_adapt, C17_adapt_disabled, C17_adapt_nil, C17_adapt_clamps, C17_adapt_errors_characterised).
 Definition C17_all_gap := (C17_gap_none_when_touching, C17_gap_exact, C17_gap_empty_iff_touching,
   C17_gap_is_empty_iff_touching, C17_gap_count).
 Print Assumptions C17_all_range.
